@@ -180,6 +180,19 @@ def run(ctx):
     from lib import ret_as_predicate
     r = ret_as_predicate(W, vf.path)
     okr = is_call(r, "Result::is_ok") and is_call(r[2][0]) and "VerifyingKey" in r[2][0][1] and r[2][0][2][0] == ("field", ("param", vf.path, 1), "pubkey") and r[2][0][2][1] == ("field", ("param", vf.path, 1), "buf")
+    # ... of the signature bytes the caller passed, converted to a Signature and nothing else ("exactly when a direct verification does")
+    oksig = False
+    sigdet = "?"
+    if okr and len(r[2][0][2]) == 3:
+        sig_src = values.strip_payload(r[2][0][2][2])
+        sig_in = sig_src
+        for _ in range(3):
+            if is_call(sig_in) and callee_name(sig_in[1]) in ("from_slice", "from_bytes", "try_from", "try_into", "from", "into") and sig_in[2]:
+                sig_in = values.strip_payload(sig_in[2][0])
+        oksig = sig_in == ("param", vf.path, 2) and (sig_src == sig_in or (is_call(sig_src) and "Signature" in sig_src[1]))
+        sigdet = fmt(sig_src)
+    ctx.check("verifier", "verify/signature-is-the-callers-bytes", oksig, "the signature verified is Signature::from(the bytes passed in), unmodified",
+              "MsgVerifier::verify checks %s instead of the caller's 64 bytes: triples a direct Ed25519 verification rejects can be accepted (or the reverse)" % sigdet, ctx.loc(vf))
     ctx.check("verifier", "verify/is-dalek-verify-of-buffer", okr, "verify = is_ok(pubkey.verify(buf, sig))", "verify returns %s" % fmt(r), ctx.loc(vf))
     # the verifying key is decoded from the caller's bytes and from nothing else (no cache keyed by part of the key, no global state)
     vn = ctx.fn(V + "::new")
